@@ -37,3 +37,37 @@ func TestVerifReplayGroupListenFailureReleasesPort(t *testing.T) {
 		t.Fatalf("port 23456 leaked by the failed group registration: %v", err)
 	}
 }
+
+// inv.(*TCPGroup).Listen / nopanic.(*TCPGroup).CloseListener.close-of-closed:
+// a join that looked the group up before the last leave re-uses the dead group.
+func TestVerifReplayStaleTCPGroup(t *testing.T) {
+	defer func() {
+		if r := recover(); r != nil {
+			t.Fatalf("join/last-leave interleaving crashed the process: %v", r)
+		}
+	}()
+	pm := ports.NewManager("tcp", "127.0.0.1", []types.PortsRange{{Start: 20000, End: 60000}})
+	ctl := NewTCPGroupCtl(pm)
+	l1, _, err := ctl.Listen("p1", "g", "k", "127.0.0.1", 0)
+	if err != nil {
+		t.Skip(err)
+	}
+	// second proxy: the controller has looked the group up ...
+	ctl.mu.Lock()
+	g := ctl.groups["g"]
+	ctl.mu.Unlock()
+	// ... when the last member leaves
+	l1.Close()
+	// ... and now joins the group object it holds
+	l2, _, err := g.Listen("p2", "g", "k", "127.0.0.1", 0)
+	if err != nil {
+		// acceptable: the join is refused or retried on a fresh group
+		l3, _, err := ctl.Listen("p2", "g", "k", "127.0.0.1", 0)
+		if err != nil {
+			t.Fatalf("group cannot be created again after the last leave: %v", err)
+		}
+		l3.Close()
+		return
+	}
+	l2.Close() // double close of the accept channel on the unfixed tree
+}
